@@ -23,6 +23,12 @@ static XF_BASE: std::sync::atomic::AtomicI64 = std::sync::atomic::AtomicI64::new
 /// histograms: every observed value and every bound is shifted down by this amount (so the stored sums are negative);
 /// snapshots are reported as `sum + shift * count`, which is exact for the small integers used
 static XF_SHIFT: std::sync::atomic::AtomicI64 = std::sync::atomic::AtomicI64::new(0);
+/// "shape": "odd" — vectors with a constant label and two variable labels declared out of alphabetical order (["z", "l"]); the
+/// scripts' key is the value of "l", the value of "z" is fixed
+static VEC_ODD: std::sync::atomic::AtomicBool = std::sync::atomic::AtomicBool::new(false);
+fn odd() -> bool {
+    VEC_ODD.load(std::sync::atomic::Ordering::Relaxed)
+}
 fn shift() -> f64 {
     XF_SHIFT.load(std::sync::atomic::Ordering::Relaxed) as f64
 }
@@ -35,6 +41,7 @@ fn set_xf(o: &Value) {
     XF_SCALE.store(scale.to_bits(), std::sync::atomic::Ordering::Relaxed);
     XF_BASE.store(base, std::sync::atomic::Ordering::Relaxed);
     XF_SHIFT.store(o.get("shift").and_then(|x| x.as_i64()).unwrap_or(0), std::sync::atomic::Ordering::Relaxed);
+    VEC_ODD.store(o.get("shape").and_then(|x| x.as_str()) == Some("odd"), std::sync::atomic::Ordering::Relaxed);
 }
 
 #[derive(Clone)]
@@ -122,6 +129,8 @@ fn make_obj_inner(o: &Value, kind: &str) -> Obj {
                 _ => panic!("via"),
             }
         }
+        "countervec" if odd() => Obj::CVec(CounterVec::new(Opts::new("c", "h").const_label("zc", "c"), &["z", "l"]).unwrap()),
+        "intcountervec" if odd() => Obj::ICVec(IntCounterVec::new(Opts::new("c", "h").const_label("zc", "c"), &["z", "l"]).unwrap()),
         "countervec" => Obj::CVec(CounterVec::new(Opts::new("c", "h"), &["l"]).unwrap()),
         "intcountervec" => Obj::ICVec(IntCounterVec::new(Opts::new("c", "h"), &["l"]).unwrap()),
         "histogramvec" => {
@@ -289,6 +298,10 @@ pub fn exec(obj: &Obj, loc: &mut Locals, op: &Value) -> Value {
             let key = op.get("key").and_then(|x| x.as_str()).unwrap_or("");
             let hs = op.get("h").and_then(|x| x.as_i64()).unwrap_or(0);
             match k {
+                "with" if map_form(op) && odd() => { loc.ch.insert(hs, cv.with(&HashMap::from([("l", key), ("z", "f")]))); json!(0) }
+                "remove" if map_form(op) && odd() => json!(if cv.remove(&HashMap::from([("l", key), ("z", "f")])).is_ok() { "ok" } else { "err" }),
+                "with" if odd() => { loc.ch.insert(hs, cv.with_label_values(&["f", key])); json!(0) }
+                "remove" if odd() => json!(if cv.remove_label_values(&["f", key]).is_ok() { "ok" } else { "err" }),
                 "with" if map_form(op) => { loc.ch.insert(hs, cv.with(&HashMap::from([("l", key)]))); json!(0) }
                 "remove" if map_form(op) => json!(if cv.remove(&HashMap::from([("l", key)])).is_ok() { "ok" } else { "err" }),
                 "with" => { loc.ch.insert(hs, cv.with_label_values(&[key])); json!(0) }
@@ -304,6 +317,10 @@ pub fn exec(obj: &Obj, loc: &mut Locals, op: &Value) -> Value {
             let key = op.get("key").and_then(|x| x.as_str()).unwrap_or("");
             let hs = op.get("h").and_then(|x| x.as_i64()).unwrap_or(0);
             match k {
+                "with" if map_form(op) && odd() => { loc.ich.insert(hs, cv.with(&HashMap::from([("l", key), ("z", "f")]))); json!(0) }
+                "remove" if map_form(op) && odd() => json!(if cv.remove(&HashMap::from([("l", key), ("z", "f")])).is_ok() { "ok" } else { "err" }),
+                "with" if odd() => { loc.ich.insert(hs, cv.with_label_values(&["f", key])); json!(0) }
+                "remove" if odd() => json!(if cv.remove_label_values(&["f", key]).is_ok() { "ok" } else { "err" }),
                 "with" if map_form(op) => { loc.ich.insert(hs, cv.with(&HashMap::from([("l", key)]))); json!(0) }
                 "remove" if map_form(op) => json!(if cv.remove(&HashMap::from([("l", key)])).is_ok() { "ok" } else { "err" }),
                 "with" => { loc.ich.insert(hs, cv.with_label_values(&[key])); json!(0) }
